@@ -154,12 +154,6 @@ def load_findings(prop=None):
         return []
     with open(p) as f:
         ents = json.load(f)["findings"]
-    d = os.path.join(VERIF, "known_findings.d")      # per-property drafts, merged before commit
-    if os.path.isdir(d):
-        for fn in sorted(os.listdir(d)):
-            if fn.endswith(".json"):
-                with open(os.path.join(d, fn)) as f:
-                    ents += json.load(f)["findings"]
     return [e for e in ents if prop is None or e["property"] == prop]
 
 
